@@ -576,8 +576,9 @@ class WebSocket:
         """
         close socket, immediately.
         """
-        if self.sock:
-            self.sock.close()
+        sock = self.sock  # another thread closing the same connection may clear self.sock meanwhile
+        if sock:
+            sock.close()
             self.sock = None
             self.connected = False
 
